@@ -156,8 +156,9 @@ class Tracer:
         self._stack = []
 
     # ------------------------------------------------------------------------------------------
-    def trace(self, fi, args=None):
-        """all paths of function fi; parameters are bound to symbolic values named after themselves"""
+    def trace(self, fi, args=None, upto=None):
+        """all paths of function fi; parameters are bound to symbolic values named after themselves
+        (upto: a top-level statement of the body - the trace stops after it)"""
         p = Path()
         a = fi.node.args
         names = [x.arg for x in a.posonlyargs + a.args] + [x.arg for x in a.kwonlyargs]
@@ -169,13 +170,18 @@ class Tracer:
             p.env[a.kwarg.arg] = Val(ast.Name(id=a.kwarg.arg, ctx=ast.Load()), tags={'kwarg'})
         self._stack = [fi.qualname]
         Path.budget = [self.max_paths * 4]
+        body = fi.node.body
+        if upto is not None:
+            if not any(st is upto for st in body):
+                raise AnalysisError('tracer: statement to stop at is not a top-level statement of %s' % fi.qualname)
+            body = body[:[i for i, st in enumerate(body) if st is upto][0] + 1]
         try:
-            paths = self._block(fi.node.body, [p], fi, 0)
+            paths = self._block(body, [p], fi, 0)
         finally:
             Path.budget = None
         for q in paths:
             if q.status is None:
-                q.status = 'return'
+                q.status = 'return' if upto is None else 'cut'
                 q.ret = const_val(None)
                 q.events.append(Event('return', value=q.ret, fn=fi.qualname, facts=tuple(q.facts)))
         return paths
@@ -247,7 +253,10 @@ class Tracer:
             for q, v in (self._expr(s.exc, p, fi, depth) if s.exc is not None else [(p, Val(ast.Name(id='<reraise>', ctx=ast.Load())))]):
                 q.status = 'raise'
                 q.ret = v
-                q.events.append(Event('raise', value=v, node=s, fn=fi.qualname, facts=tuple(q.facts), depth=depth))
+                cause = None
+                if s.cause is not None:
+                    cause = self._sub(s.cause, q) if not isinstance(s.cause, ast.Name) or s.cause.id not in q.env else q.env[s.cause.id].ast
+                q.events.append(Event('raise', value=v, node=s, fn=fi.qualname, facts=tuple(q.facts), depth=depth, target=norm(cause) if cause is not None else None))
                 outs.append(q)
             return outs
         if isinstance(s, ast.If):
@@ -855,7 +864,7 @@ class Tracer:
         ev = Event('call', callee=callee, attr=attr, recv=recv, args=list(args), kw=dict(kw), node=e, fn=fi.qualname,
                    facts=tuple(p.facts), depth=depth, result=res, in_loop=p.loop > 0)
         p.events.append(ev)
-        if isinstance(f, ast.Attribute) and isinstance(f.value, ast.Name) and f.attr in ('pop', 'clear', 'remove', 'insert', 'extend', 'reverse', 'sort', 'discard', 'update') \
+        if isinstance(f, ast.Attribute) and isinstance(f.value, ast.Name) and f.attr in ('pop', 'clear', 'remove', 'discard', 'popitem') \
                 and f.value.id in p.env and isinstance(p.env[f.value.id].ast, (ast.List, ast.Set, ast.Dict)):
             p.env[f.value.id] = Val(ast.Name(id=f.value.id, ctx=ast.Load()), tags=p.env[f.value.id].tags)
         # accumulate-by-append on a local list literal: keep the elements symbolic so that values built in a loop
@@ -872,6 +881,8 @@ class Tracer:
         a = t.node.args
         pnames = [x.arg for x in a.posonlyargs + a.args]
         env = dict(closure_env) if closure_env is not None else {}
+        if closure_env is not None and getattr(t, 'outer', None) is fi:
+            env = dict(p.env)      # a local function called from the function that defines it sees the current bindings
         bound_args = list(args)
         recv_val = None
         if t.cls is not None and not t.is_static and not isinstance(t.node, ast.Lambda) and t.outer is None:
@@ -929,6 +940,12 @@ class Tracer:
             rv = r.ret if r.status == 'return' and r.ret is not None else const_val(None)
             inner_env = r.env
             r.env = dict(saved_env)
+            if closure_env is not None and getattr(t, 'outer', None) is fi:
+                for st_ in ast.walk(t.node):
+                    if isinstance(st_, ast.Nonlocal):
+                        for nm in st_.names:
+                            if nm in inner_env:
+                                r.env[nm] = inner_env[nm]
             if r.status == 'return' or r.status is None:
                 r.status = None
                 r.ret = None
